@@ -379,12 +379,14 @@ Section Ops.
 End Ops.
 
 (* ------------------------------------------------------------------ *)
-(* the code's hash functions, uint64 wrap written in *)
+(* the code's hash functions, uint64 wrap written in ([w64] = [wrap64], lemma
+   w64_wrap64 in Proofs_more; the mask form evaluates faster than a division) *)
+Definition w64 (x : N) : N := N.land x 18446744073709551615%N.
 Definition go_mix (k : N) : N :=
-  let h := wrap64 (k * hash_mult) in N.lxor h (N.shiftr h hash_shift).
+  let h := w64 (k * hash_mult) in N.lxor h (N.shiftr h hash_shift).
 Definition go_sidx (nseg : nat) (k : N) : nat :=
-  let h := wrap64 (k * seg_mult) in N.to_nat (N.modulo (N.shiftr h seg_shift) (N.of_nat nseg)).
-Definition go_eoff (k : N) : Z := Z.of_N (N.shiftr (wrap64 (k * evict_mult)) evict_shift).
+  let h := w64 (k * seg_mult) in N.to_nat (N.modulo (N.shiftr h seg_shift) (N.of_nat nseg)).
+Definition go_eoff (k : N) : Z := Z.of_N (N.shiftr (w64 (k * evict_mult)) evict_shift).
 
 (* cache.New(size): 256 segments; sizePower by the switch *)
 Definition new_cache_power (size : Z) : Z :=
